@@ -1638,3 +1638,196 @@ func (c *Ctx) ruleValidatorTestsSubject(rule string, validators map[string]int, 
 		}
 	}
 }
+
+// rulePackSerializeSameOptions: what was packed under a set of marshalling options is serialised under it too.
+func (c *Ctx) rulePackSerializeSameOptions(rule string, min int) {
+	r := c.R
+	r.Rule(rule, "every UPDATE built by table.CreateUpdateMsgFromPaths(paths, opts…) and serialised in the same function is serialised with marshalling options exactly when it was packed with them (the packer budgets and groups for ADD-PATH / extended messages; a serialiser run without them writes NLRIs without path identifiers, or refuses a message the packer filled to the larger limit)", min)
+	pack := c.P.Func("internal/pkg/table.CreateUpdateMsgFromPaths")
+	if pack == nil {
+		r.Undec(rule, "-", "anchor:CreateUpdateMsgFromPaths", "-", "not found")
+		return
+	}
+	hasOpts := func(call *ssa.CallCommon) bool {
+		if len(call.Args) == 0 {
+			return false
+		}
+		last := call.Args[len(call.Args)-1]
+		if k, ok := last.(*ssa.Const); ok && k.IsNil() {
+			return false
+		}
+		return true
+	}
+	n := map[string]int{}
+	for _, e := range c.P.Callers(pack) {
+		caller := e.Caller.Func
+		if !c.P.InModule(caller) {
+			continue
+		}
+		pc, ok := e.Site.(*ssa.Call)
+		if !ok {
+			continue
+		}
+		packed := hasOpts(&pc.Call)
+		// values derived from the result: elements reached by range / index
+		der := map[ssa.Value]bool{pc: true}
+		changed := true
+		for changed {
+			changed = false
+			for _, b := range caller.Blocks {
+				for _, in := range b.Instrs {
+					v, ok := in.(ssa.Value)
+					if !ok || der[v] {
+						continue
+					}
+					switch x := in.(type) {
+					case *ssa.Range:
+						if der[x.X] {
+							der[v], changed = true, true
+						}
+					case *ssa.Next:
+						if der[x.Iter] {
+							der[v], changed = true, true
+						}
+					case *ssa.Extract:
+						if der[x.Tuple] {
+							der[v], changed = true, true
+						}
+					case *ssa.IndexAddr:
+						if der[x.X] {
+							der[v], changed = true, true
+						}
+					case *ssa.Index:
+						if der[x.X] {
+							der[v], changed = true, true
+						}
+					case *ssa.UnOp:
+						if der[x.X] {
+							der[v], changed = true, true
+						}
+					case *ssa.Phi:
+						for _, ed := range x.Edges {
+							if der[ed] {
+								der[v], changed = true, true
+							}
+						}
+					case *ssa.Slice:
+						if der[x.X] {
+							der[v], changed = true, true
+						}
+					}
+				}
+			}
+		}
+		fk := ir.OuterKey(caller)
+		for _, b := range caller.Blocks {
+			for _, in := range b.Instrs {
+				sc, ok := in.(*ssa.Call)
+				if !ok || sc.Call.IsInvoke() {
+					continue
+				}
+				cal := sc.Call.StaticCallee()
+				if cal == nil || cal.Name() != "Serialize" || len(sc.Call.Args) == 0 || !der[sc.Call.Args[0]] {
+					continue
+				}
+				n[fk]++
+				cons := fmt.Sprintf("Serialize of a packed UPDATE #%d", n[fk])
+				if hasOpts(&sc.Call) == packed {
+					r.Ok(rule, fk, cons, c.P.InstrPos(sc), fmt.Sprintf("packed with options=%v, serialised alike", packed))
+				} else {
+					r.Bad(rule, fk, cons, c.P.InstrPos(sc), fmt.Sprintf("packed with options=%v but serialised with options=%v: the bytes written do not have the layout the packer budgeted for and the receiver was told to expect", packed, hasOpts(&sc.Call)))
+				}
+			}
+		}
+	}
+}
+
+// ruleCheckedIsEmitted: BGPMessage.Serialize tests the length it writes.
+func (c *Ctx) ruleCheckedIsEmitted(rule string) {
+	r := c.R
+	r.Rule(rule, "in BGPMessage.Serialize the quantity compared with the session's maximum message size is the quantity stored into the header's Length field (the same sum of terms once conversions are stripped): the limit applies to the whole message, header included", 1)
+	fn := c.P.Func("(*pkg/packet/bgp.BGPMessage).Serialize")
+	pk := c.P.Pkg("pkg/packet/bgp")
+	if fn == nil || pk == nil {
+		r.Undec(rule, "-", "anchor:BGPMessage.Serialize", "-", "not found")
+		return
+	}
+	fk := ir.FuncKey(fn)
+	maxes := map[int64]bool{}
+	for _, n := range []string{"BGP_MAX_MESSAGE_LENGTH", "BGP_MAX_EXTENDED_MESSAGE_LENGTH"} {
+		if k, ok := pk.Types.Scope().Lookup(n).(*types.Const); ok {
+			v, _ := constInt(k.Val())
+			maxes[v] = true
+		}
+	}
+	// terms of a sum, conversions stripped
+	var terms func(v ssa.Value, out *[]string)
+	terms = func(v ssa.Value, out *[]string) {
+		v = stripConv(v)
+		if bo, ok := v.(*ssa.BinOp); ok && bo.Op == token.ADD {
+			terms(bo.X, out)
+			terms(bo.Y, out)
+			return
+		}
+		*out = append(*out, describeVal(v, 0))
+	}
+	isMax := func(v ssa.Value) bool {
+		v = stripConv(v)
+		if k, ok := v.(*ssa.Const); ok && k.Value != nil {
+			kv, ok := constInt(k.Value)
+			return ok && maxes[kv]
+		}
+		if ph, ok := v.(*ssa.Phi); ok {
+			any := false
+			for _, e := range ph.Edges {
+				if k, ok := stripConv(e).(*ssa.Const); ok && k.Value != nil {
+					if kv, ok := constInt(k.Value); ok && maxes[kv] {
+						any = true
+						continue
+					}
+				}
+				if _, isPhi := e.(*ssa.Phi); isPhi {
+					continue
+				}
+				return false
+			}
+			return any
+		}
+		return false
+	}
+	var checked, emitted []string
+	var cpos, epos ssa.Instruction
+	for _, b := range fn.Blocks {
+		for _, in := range b.Instrs {
+			switch x := in.(type) {
+			case *ssa.BinOp:
+				if x.Op == token.GTR && isMax(x.Y) {
+					checked = nil
+					terms(x.X, &checked)
+					cpos = x
+				} else if x.Op == token.LSS && isMax(x.X) {
+					checked = nil
+					terms(x.Y, &checked)
+					cpos = x
+				}
+			case *ssa.Store:
+				if fa, ok := x.Addr.(*ssa.FieldAddr); ok && fieldOfName(fa) == "Len" {
+					emitted = nil
+					terms(x.Val, &emitted)
+					epos = x
+				}
+			}
+		}
+	}
+	if cpos == nil || epos == nil {
+		r.Undec(rule, fk, "anchor:size test and Header.Len store", c.P.Pos(fn.Pos()), fmt.Sprintf("test found=%v store found=%v", cpos != nil, epos != nil))
+		return
+	}
+	sort.Strings(checked)
+	sort.Strings(emitted)
+	if strings.Join(checked, " + ") == strings.Join(emitted, " + ") {
+		r.Ok(rule, fk, "tested length = emitted length", c.P.InstrPos(cpos), strings.Join(checked, " + "))
+	} else {
+		r.Bad(rule, fk, "tested length = emitted length", c.P.InstrPos(cpos), "the size test looks at "+strings.Join(checked, " + ")+" but the header announces "+strings.Join(emitted, " + ")+": a message within the tested bound can exceed the session's limit on the wire")
+	}
+}
